@@ -1169,3 +1169,149 @@ def meanstress_downstream(case, ctx):
         if not all(_close(None if a is None else float(a), b) for a, b in zip(g, w)):
             raise Violation("row %r: batch (range, mean) = %r, single-diagram transformation of cycle %r with (M, M2) = %r of %r gives %r"
                             % (r, g, table_c[ck], table_h[hk], hk, w), bucket="meanstress:value")
+
+
+# --------------------------------------------------------------------------- downstream: per-element Haigh diagrams
+_FIVE_COLS = ["M0", "M1", "M2", "M3", "M4", "R12", "R23"]
+_FIVE_PRESETS = [[0.5, 0.3, 0.2, 0.1, 0.05], [0.4, 0.25, 0.15, 0.05, 0.0], [0.6, 0.35, 0.1, 0.0, 0.1],
+                 [0.3, 0.2, 0.12, 0.08, 0.02], [0.45, 0.4, 0.3, 0.2, 0.2]]
+_FIVE_R = [[0.4, 0.8], [0.25, 0.75], [0.5, 0.9], [0.3, 0.6], [0.2, 0.7]]
+_CYC = [[2.0, 0.0], [2.0, 1.0], [1.0, -0.5], [3.0, 4.0], [2.0, -3.0], [4.0, 0.5], [1.0, 1.0], [2.0, 2.5]]
+
+
+@st.composite
+def _haigh_cases(draw, tier):
+    """A frame of per-element diagram parameters on a generated element index and a collective."""
+    kind = draw(st.sampled_from(["five_segment", "five_segment", "fkm_goodman"]))
+    nlev = draw(st.sampled_from([1, 2, 2, 2, 3]))
+    names = list(draw(st.permutations(["element_id", "x", "node_id", "part"])))[:nlev]
+    key_pools = [[1, 2, 3], [2, 5, 11], ["a", "b", "c"], ["b", "a", "z"], [10, 7, 30]]
+    levels = []
+    for _ in range(nlev):
+        pool = draw(st.sampled_from(key_pools))
+        cnt = draw(st.integers(1 if nlev > 1 else 2, 3 if nlev < 3 else 2))
+        levels.append(list(draw(st.permutations(pool)))[:cnt])
+    rows = [list(t) for t in itertools.product(*levels)]
+    if len(rows) > 2 and draw(st.integers(0, 3)) == 0:               # ragged
+        del rows[draw(st.integers(0, len(rows) - 1))]
+    cap = 6 if tier == "quick" else 10
+    if len(rows) > cap:
+        rows = list(draw(st.permutations(rows)))[:cap]
+    order = draw(st.sampled_from(["as_built", "sorted", "reversed", "shuffled", "shuffled"]))
+    if order == "sorted":
+        rows = sorted(rows, key=lambda r: [str(type(k)) + repr(k) for k in r])
+        rows = sorted(rows)
+    elif order == "reversed":
+        rows = sorted(rows)[::-1]
+    elif order == "shuffled":
+        rows = list(draw(st.permutations(rows)))
+    off = draw(st.integers(0, 4))
+    vary_R = draw(st.integers(0, 3)) == 0
+    vals = []
+    for i in range(len(rows)):
+        scale = 1.0 - 0.03 * (i // 5)
+        ms = [m * scale for m in _FIVE_PRESETS[(i + off) % 5]]
+        if kind == "five_segment":
+            vals.append(ms + (_FIVE_R[(i + off) % 5] if vary_R else _FIVE_R[0]))
+        else:
+            vals.append([ms[0], ms[2]])
+    cols = _FIVE_COLS if kind == "five_segment" else ["M", "M2"]
+    clay = draw(st.sampled_from(["same_index", "same_index_shuffled", "scenario", "element_scenario", "scenario_element_shuffled"]))
+    ns = draw(st.integers(1, 2))
+    if clay == "same_index":
+        cnames, crows = list(names), [list(r) for r in rows]
+    elif clay == "same_index_shuffled":
+        cnames, crows = list(names), [list(r) for r in draw(st.permutations(rows))]
+    elif clay == "scenario":
+        cnames, crows = ["scenario"], [[s] for s in range(ns)]
+    else:
+        cnames, crows = list(names) + ["scenario"], [list(r) + [s] for r in rows for s in range(ns)]
+        if clay == "scenario_element_shuffled":
+            perm = list(draw(st.permutations(range(len(cnames)))))
+            cnames = [cnames[i] for i in perm]
+            crows = [[r[i] for i in perm] for r in draw(st.permutations(crows))]
+    cvals = [_CYC[draw(st.integers(0, len(_CYC) - 1))] for _ in crows]
+    return {"kind": kind, "order": order, "vary_R": vary_R, "cycles_layout": clay,
+            "diagram": {"names": names, "rows": rows, "columns": cols, "values": vals},
+            "cycles": {"names": cnames, "rows": crows, "values": cvals},
+            "R_goal": draw(st.sampled_from([-1.0, 0.0, 0.5, -0.5]))}
+
+
+def _expected_segments(kind, params):
+    """(R interval as model key) -> slope, written from the docstrings of fkm_goodman / five_segment."""
+    inf = float("inf")
+    if kind == "fkm_goodman":
+        M, M2 = params
+        return {("iv", 1.0, inf): 0.0, ("iv", -inf, 0.0): M, ("iv", 0.0, 1.0): M2}
+    M0, M1, M2, M3, M4, R12, R23 = params
+    return {("iv", 1.0, inf): M4, ("iv", -inf, 0.0): M0, ("iv", 0.0, R12): M1, ("iv", R12, R23): M2, ("iv", R23, 1.0): M3}
+
+
+@subcheck(PROP, "haigh_downstream", strategy=_haigh_cases, quick=300, thorough=10000,
+          doc="per-element Haigh diagrams (five_segment / fkm_goodman of a DataFrame) on generated element indexes (1-3 named levels, "
+              "sorted / reversed / shuffled / ragged, int keys with gaps, string keys): (1) the diagram's entry for (element key, R interval) is "
+              "that element's own slope (exact); (2) transform(collective, R_goal) equals, row by row, the transformation of that cycle with "
+              "the diagram built from the element's parameters alone (RTOL 1e-12); the parameter frame is left unchanged")
+def haigh_downstream(case, ctx):
+    from pylife.strength.meanstress import HaighDiagram
+    kind, d, c = case["kind"], case["diagram"], case["cycles"]
+    ctx.label("kind:" + kind, "order:" + case.get("order", "?"), "levels:%d" % len(d["names"]), "cycles:" + case.get("cycles_layout", "?"))
+    if case.get("vary_R"):
+        ctx.label("per_element_R12_R23")
+    frame = pd.DataFrame(d["values"], columns=d["columns"], index=_named_index(d["names"], d["rows"]), dtype=float)
+    cycles = pd.DataFrame(c["values"], columns=["range", "mean"], index=_named_index(c["names"], c["rows"]), dtype=float)
+    sf, sc = snapshot(frame), snapshot(cycles)
+    drows = [tuple(r) for r in d["rows"]]
+    if len(drows) >= 2 and drows != sorted(drows, key=repr) or len(d["names"]) >= 2:
+        ctx.nontrivial()
+    make = HaighDiagram.five_segment if kind == "five_segment" else HaighDiagram.fkm_goodman
+    hd = make(frame)
+    assert_unchanged(sf, frame, "diagram parameter frame")
+    # (1) the diagram itself (the Series behind the accessor, read only)
+    ser = hd._obj
+    snames = list(ser.index.names)
+    if sorted(map(str, snames)) != sorted(d["names"] + ["R"]):
+        raise Violation("diagram levels %r, expected %r plus 'R'" % (snames, d["names"]), bucket="haigh:levels")
+    want = {}
+    for k, params in zip(drows, d["values"]):
+        for iv, slope in _expected_segments(kind, params).items():
+            want[k + (iv,)] = slope
+    pos = [snames.index(n) for n in d["names"] + ["R"]]
+    got = {}
+    for r, v in zip(_rows_of(ser.index), _values_of(ser)):
+        got[tuple(r[p] for p in pos)] = v[0]
+    if set(got) != set(want) or len(ser) != len(want):
+        raise Violation("diagram keys differ from elements x segments: missing %r, unexpected %r"
+                        % ([k for k in want if k not in got][:3], [k for k in got if k not in want][:3]), bucket="haigh:keys")
+    for k in want:
+        if not _eqv(got[k], want[k]):
+            raise Violation("diagram entry for element %r, R segment %r is %r, the element's own slope is %r"
+                            % (k[:-1], k[-1][1:], got[k], want[k]), bucket="haigh:slope")
+    # (2) transformation, element by element
+    Rg = case["R_goal"]
+    res = hd.transform(cycles, Rg)
+    assert_unchanged(sc, cycles, "collective")
+    names = list(res.index.names)
+    rows = _rows_of(res.index)
+    j = ref.join(list(d["names"]), drows, list(c["names"]), [tuple(r) for r in c["rows"]])
+    want_rows = set(ref.project(r, j["ids"], names) for r in j["rows"]) if set(names) == set(j["ids"]) else None
+    if want_rows is None or set(rows) != want_rows or len(rows) != len(want_rows):
+        raise Violation("transform result levels %r rows %r, expected the join %r of %r" % (names, rows[:8], j["rows"][:8], j["ids"]),
+                        bucket="haigh:row-set")
+    table_c = {tuple(r): v for r, v in zip(c["rows"], c["values"])}
+    table_d = dict(zip(drows, d["values"]))
+    cache, alone = {}, {}
+    for r, g in zip(rows, _values_of(res[["range", "mean"]])):
+        dk = tuple(r[names.index(n)] for n in d["names"])
+        ck = tuple(r[names.index(n)] for n in c["names"])
+        key = (dk, tuple(table_c[ck]))
+        if key not in cache:
+            if dk not in alone:
+                alone[dk] = make(pd.Series(dict(zip(d["columns"], table_d[dk]))))
+            one = alone[dk]
+            out = one.transform(pd.DataFrame([table_c[ck]], columns=["range", "mean"], dtype=float), Rg)
+            cache[key] = [None if math.isnan(v) else float(v) for v in (out["range"].iloc[0], out["mean"].iloc[0])]
+        w = cache[key]
+        if not all(_close(None if a is None else float(a), b) for a, b in zip(g, w)):
+            raise Violation("row %r: batch (range, mean) = %r, the diagram of element %r alone transforms cycle %r to %r"
+                            % (r, g, dk, table_c[ck], w), bucket="haigh:transform")
